@@ -237,6 +237,12 @@ type SimWriter struct {
 
 func NewSimWriter(sched *Sched) *SimWriter { return &SimWriter{sched: sched} }
 
+// Truncate makes the writer an empty healthy file again (the same object: a
+// caller that truncates its file and retries).
+func (w *SimWriter) Truncate() {
+	w.Buf, w.Calls, w.Fault, w.Fired, w.OnWrite = nil, 0, nil, 0, nil
+}
+
 // Sync makes the simulated file look like an *os.File to code that probes its
 // destination for it. It never fails (nothing is cached below the simulated
 // disk), in particular not after a failed write - so a caller that lets a
